@@ -1503,6 +1503,18 @@ class H2Connection:
             if setting.new_value != setting.original_value:
                 self.encoder.header_table_size = setting.new_value
 
+                # The encoder signals every size it was given since the last
+                # header block. RFC 7541 Section 4.2 asks for the smallest of
+                # them and the final one only, and an intermediate size may
+                # exceed the limit the peer has set by now, which makes the
+                # peer's decoder refuse the block.
+                pending = getattr(self.encoder, 'table_size_changes', None)
+                if pending and len(pending) > 1:
+                    smallest, final = min(pending), pending[-1]
+                    self.encoder.table_size_changes = (
+                        [smallest, final] if smallest < final else [final]
+                    )
+
         if SettingCodes.MAX_FRAME_SIZE in changes:
             setting = changes[SettingCodes.MAX_FRAME_SIZE]
             self.max_outbound_frame_size = setting.new_value
